@@ -585,58 +585,65 @@ def check_translation(pid):
     return res
 
 
-CHK_THEOREMS = ["gen_is_one_eq", "gen_is_zero_eq", "gen_check_is_one_eq", "gen_check_unit_interval_eq",
-                "gen_in_unit_interval_eq", "gen_check_unit_interval_is_in_unit"]
+SIDE_TRANSLATIONS = [
+    # (key, rs2v arguments (relative to <repo>/src), generated file, proof file, theorems, properties, what)
+    ("chk", ["--checks", "approx_ext.rs", "errors.rs"], "ChkGen.v", "ChkGenEq.v",
+     ["gen_is_one_eq", "gen_is_zero_eq", "gen_check_is_one_eq", "gen_check_unit_interval_eq",
+      "gen_in_unit_interval_eq", "gen_check_unit_interval_is_in_unit"], ("C01", "C19"),
+     "the model's tolerance predicates / src/approx_ext.rs + src/errors.rs"),
+    ("conv", ["--convert", "convert.rs"], "ConvGen.v", "ConvGenEq.v",
+     ["gen_bop_to_mul_eq", "gen_mul_to_bop_eq", "gen_mul_to_bop_ref_eq", "gen_convert_roundtrip"], ("C13",),
+     "the model's conversions / src/convert.rs"),
+]
 
 
 def check_translation_checks(pid):
-    """src/approx_ext.rs + src/errors.rs -> ChkGen.v (tools/rs2v.py --checks), proved to be the model's tolerance
-    predicates (coq/Gen/ChkGenEq.v).  For C01 and C19."""
+    """The small translated files: src/approx_ext.rs + src/errors.rs -> ChkGen.v (C01, C19), src/convert.rs ->
+    ConvGen.v (C13); each regenerated by tools/rs2v.py and proved equal to the model (coq/Gen/*Eq.v)."""
     import hashlib
-    if pid not in ("C01", "C19"):
-        return {"theorems": [], "errors": []}
-    d = os.path.join(SCRATCH, "gen")
-    os.makedirs(d, exist_ok=True)
     res = {"theorems": [], "errors": []}
-    with Lock("gen" if not ISO else "gen-" + os.path.basename(ISO.rstrip("/"))):
-        p = subprocess.run([sys.executable, os.path.join(VERIF, "tools", "rs2v.py"), "--checks",
-                            os.path.join(REPO, "src", "approx_ext.rs"), os.path.join(REPO, "src", "errors.rs")],
-                           stdout=subprocess.PIPE, stderr=subprocess.PIPE)
-        if p.returncode != 0:
-            res["errors"].append("translation of src/approx_ext.rs / src/errors.rs failed (%s): the model's tolerance predicates "
-                                 "are not tied to the source" % p.stderr.decode("utf-8", "replace").strip()[:400])
-            return res
-        new = p.stdout.decode()
-        eq_src = open(os.path.join(COQ, "Gen", "ChkGenEq.v")).read()
-        stamp = os.path.join(d, "chk_ok.json")
-        key = hashlib.sha256((new + "\0" + eq_src).encode()).hexdigest()
-        cached = None
-        if os.path.exists(stamp):
-            try:
-                cached = json.load(open(stamp))
-            except ValueError:
-                cached = None
-        rb = os.path.join(COQ, "Facts", "RBase.vo")
-        if not cached or cached.get("key") != key or not os.path.exists(rb) or os.path.getmtime(rb) > os.path.getmtime(stamp):
-            open(os.path.join(d, "ChkGen.v"), "w").write(new)
-            rc, out = build_coq(["Facts/RBase.vo"])
-            if rc == 0:
-                rc, out = sh(["coqc", "-Q", COQ, "SL", "-Q", d, "SLGen", os.path.join(d, "ChkGen.v")], cwd=d, timeout=600)
-            if rc != 0:
-                cached = {"key": key, "proved": [], "failed": {"*": "generated definitions do not type-check: " + out[-500:]}}
+    for key_, args, genf, eqf, thms, pids, what in SIDE_TRANSLATIONS:
+        if pid not in pids:
+            continue
+        d = os.path.join(SCRATCH, "gen")
+        os.makedirs(d, exist_ok=True)
+        with Lock("gen" if not ISO else "gen-" + os.path.basename(ISO.rstrip("/"))):
+            cmd = [sys.executable, os.path.join(VERIF, "tools", "rs2v.py"), args[0]] + [os.path.join(REPO, "src", a) for a in args[1:]]
+            p = subprocess.run(cmd, stdout=subprocess.PIPE, stderr=subprocess.PIPE)
+            if p.returncode != 0:
+                res["errors"].append("translation failed (%s): %s is not tied to the source" % (
+                    p.stderr.decode("utf-8", "replace").strip()[:400], what))
+                continue
+            new = p.stdout.decode()
+            eq_src = open(os.path.join(COQ, "Gen", eqf)).read()
+            stamp = os.path.join(d, key_ + "_ok.json")
+            key = hashlib.sha256((new + "\0" + eq_src).encode()).hexdigest()
+            cached = None
+            if os.path.exists(stamp):
+                try:
+                    cached = json.load(open(stamp))
+                except ValueError:
+                    cached = None
+            rb = os.path.join(COQ, "Facts", "RBase.vo")
+            if not cached or cached.get("key") != key or not os.path.exists(rb) or os.path.getmtime(rb) > os.path.getmtime(stamp):
+                open(os.path.join(d, genf), "w").write(new)
+                rc, out = build_coq(["Facts/RBase.vo", "Model/Bi.vo"])
+                if rc == 0:
+                    rc, out = sh(["coqc", "-Q", COQ, "SL", "-Q", d, "SLGen", os.path.join(d, genf)], cwd=d, timeout=600)
+                if rc != 0:
+                    cached = {"key": key, "proved": [], "failed": {"*": "generated definitions do not type-check: " + out[-500:]}}
+                else:
+                    proved, failed, ax = _prove_blocks(d, eqf, eq_src, "(* END *)")
+                    if not ax <= ALLOWED_AXIOMS:
+                        failed["*"] = "unexpected axioms " + ", ".join(sorted(ax - ALLOWED_AXIOMS))
+                    cached = {"key": key, "proved": proved, "failed": failed}
+                json.dump(cached, open(stamp, "w"))
+        for t in thms:
+            if t in cached["proved"] and "*" not in cached["failed"]:
+                res["theorems"].append(t)
             else:
-                proved, failed, ax = _prove_blocks(d, "ChkGenEq.v", eq_src, "(* END *)")
-                if not ax <= ALLOWED_AXIOMS:
-                    failed["*"] = "unexpected axioms " + ", ".join(sorted(ax - ALLOWED_AXIOMS))
-                cached = {"key": key, "proved": proved, "failed": failed}
-            json.dump(cached, open(stamp, "w"))
-    for t in CHK_THEOREMS:
-        if t in cached["proved"] and "*" not in cached["failed"]:
-            res["theorems"].append(t)
-        else:
-            res["errors"].append("the model's tolerance predicates no longer equal the translation of src/approx_ext.rs / "
-                                 "src/errors.rs: theorem %s (coq/Gen/ChkGenEq.v): %s" % (
-                                     t, cached["failed"].get(t) or cached["failed"].get("*") or "an earlier statement failed"))
+                res["errors"].append("%s: theorem %s (coq/Gen/%s) fails: %s" % (
+                    what, t, eqf, cached["failed"].get(t) or cached["failed"].get("*") or "an earlier statement failed"))
     return res
 
 
